@@ -286,6 +286,14 @@ class Abstraction:
                     gap = re.sub(r"#[^\r\n]*", "", gap)
                     if "\\" in gap:
                         raise Unmodelled("explicit line joining next to a rewritten import")
+        # a linebreak-only character inside a comment between statements: splitlines() cuts the
+        # comment in two and whatever is spliced in after the first half becomes comment text -
+        # comments are not represented, so the model cannot say that
+        last_imp_end = max([ext[j][1] for j in range(len(body)) if is_abs_import(body[j])] or [0])
+        edges = [0] + [x for se in ext for x in se] + [len(self.src)]
+        for a, b in zip(edges[0::2], edges[1::2]):
+            if a < last_imp_end and re.search("#[^\r\n]*[" + SPLIT_ONLY + "]", self.src[a:b]):
+                raise Unmodelled("linebreak-only character inside a comment before a rewritten import")
         lines = []
         for i, js in enumerate(per_line):
             lines.append(clist([f"Frag {self.names[j]} {cnat(occ[j].index(i))} {cnat(len(occ[j]))}" for j in js]))
@@ -356,6 +364,52 @@ SIMPLE = ["x = 1", "import os", "print('a; b')", "y = 'from district42 import sc
 FILLERS = ["", "", "# comment", "# from district42 import schema", "    ", "#!/usr/bin/env python", "\t", "# \u00e9"]
 DOCSTRINGS = ['"""Module doc."""', "'doc'", '"""Module doc.\n\nfrom district42 import schema\n"""',
               "'''\nfrom valera import validate\n'''", 'r"""raw \\ doc"""']
+
+
+# fixed corner inputs, always checked first (the first failing one of a class is the example
+# printed on the KNOWN-FINDING line)
+CORNERS = [
+    "from district42 import schema; x = 1\n",                                   # F21
+    "from district42 import schema; from valera import validate\ny=2\n",         # F21: two imports, one line
+    "import a; from district42 import schema\n",                                # F21
+    "from district42 import \\\n  schema; x = 1\n",                               # F21 after a continuation
+    "x = '''a\nb'''; from district42 import schema\ny = 1\n",                    # F21 -> invalid Python
+    "\x0cfrom district42 import schema\ny = 2\n",                                # linebreak: leading form feed
+    "x = 1\n\x0c\nfrom district42 import schema\ny = 2\n",                       # linebreak: form feed line
+    "x = 'a\x0cb'\nfrom district42 import schema\ny = 2\n",                      # linebreak: inside a string
+    "from district42 import schema\nx = 'a\u2028b'\n",                           # harmless: after the last import
+    "def f():\n    from district42 import schema\n    return schema\n",        # nested: None
+    "try:\n    from district42 import schema\nexcept ImportError:\n    schema = None\n",
+    "class A:\n    from district42 import schema\n",
+    "if 1: from district42 import schema\nx = 1\n",
+    "from district42 import *\nx = 1\n",
+    "from .district42 import schema\nfrom . import schema\nfrom ..valera import validate\n",
+    "from .valera import validate\nfrom district42 import schema\n",
+    "import district42\nx = district42.schema\n",
+    "import district42\nfrom district42 import schema\n",
+    "from district42 import schema, schema\nfrom district42 import schema\n",
+    "from district42 import schema as s, optional as o, foo as f\n",
+    "from district42 import foo as x, schema as x\n",
+    "from os import path\nx=1\n",
+    "import os\nx=1\n",
+    "from district42 import schema  # c\nx = 1\n",
+    '"""doc\nfrom district42 import schema\n"""\nfrom district42 import schema\n',
+    "x = 1\nfrom district42 import schema",
+    "from district42 import schema\nx = 1",
+    "from district42 import schema\r\nx = 1\r\n",
+    "from district42 import schema\rx = 1\r",
+    "from district42 import (  # a\n    schema,  # b\n    # c\n    optional as o,\n    foo,\n)  # d\nx = 1\n",
+    "from district42 import schema;\nx = 1\n",
+    "from district42.types import IntSchema, optional, Foo, make_required, Schema\n",
+    "from __future__ import annotations\nfrom district42 import schema\n",
+    "",
+    "\n",
+    "from district42.foo import schema\n",
+    "# -*- coding: latin-1 -*-\nfrom district42 import schema\n",
+    "from district42 import schema  # type: ignore\n",
+    "from district42 import (\n    schema,\n    optional,\n)\n\nS = schema.dict({optional('id'): schema.int})\n",
+    "from district42 import (schema,\n    optional)\nfrom valera import validate\n",
+]
 
 
 class ModGen:
@@ -672,6 +726,8 @@ def run(ctx):
         c.src, c.stream, c.term, c.unmodelled = src, stream, None, None
         cases.append(c)
 
+    for src in CORNERS:
+        add(None, src)
     n_main = ctx.scale(420, 12000)
     for _ in range(n_main):
         add(None, g.main_module())
@@ -730,16 +786,26 @@ def run(ctx):
             unmodelled[str(e)] += 1
     bad = common.eval_cases(ctx.workdir, "c19", [c.term for c in modelled], "mcase", "migrate_case_full",
                             extra_requires=REQUIRES, per_file=ctx.scale(120, 400))
-    for i in bad[:10]:
+    for k, i in enumerate(bad[:10]):
         c = modelled[i]
         parts = []
-        for fn in ("migrate_case_ok", "migrate_region_ok", "migrate_damage_ok", "migrate_theorem_instance"):
+        for fn in ("migrate_case_ok", "migrate_region_ok", "migrate_damage_ok", "migrate_theorem_instance") if k < 3 else ():
             if common.eval_cases(ctx.workdir, "c19d", [c.term], "mcase", fn, extra_requires=REQUIRES):
                 parts.append(fn)
         rp = _replay_dict(c, "the model of rewrite_imports (theories/Migrate.v) predicts the observed statement list")
         rp.update(theorem_or_suite="C19 correspondence rewrite_imports", failed_parts=parts, coq_case=c.term[:4000])
         ctx.violation("model and implementation disagree on rewrite_imports (" + ", ".join(parts) + ")", rp,
                       failing_input=c.why is not None and c.cls is None)
+
+    # ---- which mapped names were really exercised (read back from the generated sources)
+    seen = {"main": set(), "singles": set()}
+    for c in cases:
+        if c.stream in seen and c.why is None and c.out is not None:
+            for node in ast.parse(c.src).body:
+                if is_abs_import(node) and node.module in mapping:
+                    seen[c.stream].update((node.module, a.name) for a in node.names if a.name in mapping[node.module])
+    if len(seen["main"] | seen["singles"]) < len(g.pairs) and not ctx.violations:
+        raise common.CheckBroken("C19 generator did not cover every mapped name")
 
     # ---- evidence
     by_stream = collections.Counter(c.stream for c in cases)
@@ -771,7 +837,8 @@ def run(ctx):
                         "unmodelled": len(cases) - len(modelled), "unmodelled_reasons": dict(unmodelled)},
         oracle_cases=len(cases),
         distribution={"streams": dict(by_stream), "forms": dict(g.forms),
-                      "mapped_names_covered": f"{len(g.covered)}/{len(g.pairs)}",
+                      "mapped_names_covered": {"main_stream": f"{len(seen['main'])}/{len(g.pairs)}",
+                                               "singles_stream": f"{len(seen['singles'])}/{len(g.pairs)}"},
                       "oracle_failures_by_class": dict(fails), "returned_none": sum(1 for c in cases if c.out is None),
                       "generator_rejects": rejects},
     )
